@@ -160,6 +160,14 @@ Theorem C18_audit_effects_allowlisted : forall al fp, audit_ok al fp = true ->
 Proof. exact audit_effects_allowlisted. Qed.
 Print Assumptions C18_audit_effects_allowlisted.
 
+(* no live read of the environment, the clock, randomness, object identities /
+   hash values, directory order or the command line, and no live read of state
+   pickled by an earlier run, unless allow-listed *)
+Theorem C18_audit_ambient_allowlisted : forall al fp, audit_ok al fp = true ->
+  forall e, In e fp -> e_live e = true -> is_ambient e = true -> Allowed al e.
+Proof. exact audit_ambient_allowlisted. Qed.
+Print Assumptions C18_audit_ambient_allowlisted.
+
 Theorem C18_audit_fail_closed : forall al fp e,
   In e fp -> e_live e = true -> is_unknown e = true -> allowed_by al e = false ->
   audit_ok al fp = false.
